@@ -38,9 +38,12 @@ var exhaustive = map[string]int64{clB6Byte: 256, clB8Byte: 256, clB6Group: 729, 
 func init() {
 	fw.Register(&fw.Prop{
 		ID:                  "C14",
-		DeadlockIsViolation: true,                       // the calls of this property are synchronous functions of their inputs: a call blocked for good inside the library is a violation
-		Builds:              []string{"default", "386"}, // the 386 build runs a quarter of the random classes on a 32-bit target
-		Parallel:            4,                          // cases are judged on 4 goroutines per shard: the library functions are stateless, shared state inside them shows up as wrong verdicts
+		DeadlockIsViolation: true,                               // the calls of this property are synchronous functions of their inputs: a call blocked for good inside the library is a violation
+		Builds:              []string{"default", "386", "race"}, // the 386 build runs a quarter of the random classes on a 32-bit target
+		// race build: only the classes in which several goroutines are inside the library at once, under the race detector
+		RaceClasses: []string{"coldstart", "b1t6/seq", "b1t8/seq"},
+		RaceSample:  100,
+		Parallel:    4, // cases are judged on 4 goroutines per shard: the library functions are stateless, shared state inside them shows up as wrong verdicts
 		Rule: "exhaustive: every byte through Encode/EncodeToTrytes/Decode/DecodeTrytes of b1t6 and Encode/Decode of b1t8; every one of the 3^6 b1t6 groups as trits (Decode) and as a tryte pair (DecodeTrytes), every one of the 3^8 b1t8 groups. " +
 			"sequences: long sequences of 255..5000 groups with the first invalid group at 1, the middle, around 256/1024/2048 and at the end; for every group count 0..64, every position of an invalid group (and none), every remainder length (b1t6: 0..5 trits with 0/1-only and arbitrary contents; trytes: 0 or 1 extra tryte; b1t8: 0..7 trits with and without a -1 in the remainder), random contents, optionally further invalid groups behind the first; random byte strings of length 0..64 (some up to 2000; one in 4000 of 16383..262147 bytes, sizes at which an implementation may work in chunks or on several goroutines) through encode and decode. " +
 			"Verdict, sentinel (errors.Is), returned byte count and the bytes written before the fault are compared with the model; accepted inputs are re-encoded and must reproduce the input. Only trits in {-1,0,1} and trytes in [9A-Z] are generated. " +
@@ -77,6 +80,9 @@ func post(r *fw.RunResult) {
 	nb := int64(0)
 	seen := map[string]bool{}
 	for _, sh := range r.Shards {
+		if sh.Build == "race" {
+			continue // the race build judges the cold-start and sequence classes only
+		}
 		if !seen[sh.Build] {
 			seen[sh.Build] = true
 			nb++
